@@ -137,7 +137,16 @@ pub fn check(c: &Case) -> Outcome {
             }
             extra_last = true;
             let must: Vec<f64> = te.iter().copied().filter(|t| (t - ts) * d <= 0.0).collect();
-            let may: Vec<f64> = te.iter().copied().filter(|t| (t - ts) * d <= tolt + tau(sp.x0, sp.xend, ts)).collect();
+            // "none beyond it": the event point is a located time, and the handler flushes the requested times up to it with
+            // zero slack.  The only way a requested time beyond it is legitimately present is the handler's 1e-12
+            // resolution at a step end: a time that close behind the end of an *earlier* accepted step was reported with
+            // that step, before the event (located in the next step, at or just after that step end) was known.
+            let slack = tolt + tau(sp.x0, sp.xend, ts);
+            let may: Vec<f64> = te
+                .iter()
+                .copied()
+                .filter(|t| (t - ts) * d <= 0.0 || ((t - ts) * d <= slack && steps.iter().any(|s| (s - ts) * d <= 0.0 && (t - s).abs() <= slack)))
+                .collect();
             let got = &sol.t[..sol.t.len() - 1];
             if got.len() < must.len() || got.len() > may.len() || !bits_eq(got, &may[..got.len()]) {
                 return Outcome::viol(format!(
@@ -163,6 +172,31 @@ pub fn check(c: &Case) -> Outcome {
     if !bits_eq(got_t, &expected) {
         let k = got_t.iter().zip(&expected).position(|(a, b)| a.to_bits() != b.to_bits()).unwrap_or(got_t.len().min(expected.len()));
         return Outcome::viol(format!("{}: reported times differ from t_eval: {} reported, {} requested; first difference at index {} ({:?} vs {:?})", name, got_t.len(), expected.len(), k, got_t.get(k), expected.get(k)));
+    }
+    // (d') requested times placed on the *located* event and just beyond it (1e-13, 5e-13: inside the handler's 1e-12
+    // resolution) when no accepted step end is near: the output times asked for do not move the steps or the event, so
+    // the same stop is found again, the time equal to it is reported and the two beyond it are not
+    if sol.status == Status::UserInterrupt {
+        let ts = *sol.t.last().unwrap();
+        let u = ulp(ts.abs());
+        let (d1, d2) = ((1e-13f64).max(2.0 * u), (5e-13f64).max(4.0 * u));
+        let far_from_steps = !steps.iter().any(|s| (s - ts).abs() <= 4e-12 + 16.0 * u);
+        let inside = (ts - sp.x0) * d > 0.0 && (sp.xend - (ts + d * d2)) * d > 0.0;
+        if far_from_steps && inside && d2 <= 1e-12 {
+            let mut te2 = te.clone();
+            te2.extend_from_slice(&[ts, ts + d * d1, ts + d * d2]);
+            te2.sort_by(|a, b| (a * d).partial_cmp(&(b * d)).unwrap());
+            if let Ok((s2, _)) = run_one(c, &prob, &evs, &te2, true, max_steps) {
+                let want: Vec<f64> = te2.iter().copied().filter(|t| (t - ts) * d <= 0.0).collect();
+                let ok = s2.status == Status::UserInterrupt && s2.t.last().map(|t| t.to_bits()) == Some(ts.to_bits()) && s2.t.len() == want.len() + 1 && bits_eq(&s2.t[..want.len()], &want);
+                if !ok {
+                    return Outcome::viol(format!(
+                        "{}: terminal event located at {:e} strictly inside a step; with the requested times {:e}, {:e} (= event + 1e-13, + 5e-13 in the direction of integration) added, the run reports {} samples ending {:?} (status {}) instead of the {} requested times <= the event followed by the event point",
+                        name, ts, ts + d * d1, ts + d * d2, s2.t.len(), &s2.t[s2.t.len().saturating_sub(3)..], status_name(s2.status), want.len()
+                    ));
+                }
+            }
+        }
     }
     // (b) values = step interpolant, (c) accuracy
     let mut lmax: f64 = 0.0;
@@ -309,7 +343,7 @@ pub fn run(ctx: &Ctx, known: &[Known]) -> Report {
     let stats = run_generated(ctx, "C05", "gen", &strategy, &check, cases, known);
     Report {
         id: "C05".into(),
-        rule: "two-phase cases: a plain dense run gives the accepted-step grid; up to 24 requested times are placed on it (a grid point, +-1e-13 / 5e-13 / 2e-12 / 1e-9 beside one, mid-step, span fractions, x0, xend, duplicates by coincidence of anchors), sorted in the direction of integration; variants with 1..3 event functions (terminal or not) and with a step budget; six methods, both directions; every case runs with dense_output on and off. Oracle: (a) bitwise equality with t_eval under Success, (b) value = Solution::sol of the dense twin (bit-identical away from step ends), (c) accuracy bound against the exact solution for samples in steps with h*rate <= 1, (d) completeness / no overshoot on early stop with the terminal point as the only extra entry, (e) independence of dense_output. Non-trivial = a requested time within 1e-9 of an interior step end, or a duplicate, or an early stop. Distinct = distinct canonical JSON.".into(),
+        rule: "two-phase cases: a plain dense run gives the accepted-step grid; up to 24 requested times are placed on it (a grid point, +-1e-13 / 5e-13 / 2e-12 / 1e-9 beside one, mid-step, span fractions, x0, xend, duplicates by coincidence of anchors), sorted in the direction of integration; variants with 1..3 event functions (terminal or not) and with a step budget; six methods, both directions; every case runs with dense_output on and off. Oracle: (a) bitwise equality with t_eval under Success, (b) value = Solution::sol of the dense twin (bit-identical away from step ends), (c) accuracy bound against the exact solution for samples in steps with h*rate <= 1, (d) completeness / no overshoot on early stop with the terminal point as the only extra entry (after a terminal event: the requested times <= the event time, and beyond it only one that lies within the handler's 1e-12 resolution of an earlier accepted step end; after a step budget: up to 1e-12 beyond the last step end), (d') after a stop at a terminal event located away from every step end, the run is repeated with the event time itself and two times 1e-13 / 5e-13 beyond it added to t_eval: the first is reported, the other two are not; (e) independence of dense_output. Non-trivial = a requested time within 1e-9 of an interior step end, or a duplicate, or an early stop. Distinct = distinct canonical JSON.".into(),
         assumptions: vec![
             "requested times within 2e-12 (twice the handler's documented resolution) of a step end may carry the stored state or the neighbouring segment's value: compared with max|f|*4e-12 slack".into(),
             "accuracy bound C * kappa * naccpt * tolscale with the constant of C01".into(),
